@@ -148,6 +148,15 @@ func runC03(c *Cfg) {
 		r.HighWater("long_cycle.longest_path", int64(len(outs[0].Store)))
 		r.NontrivialH(uint64(9)<<40 | uint64(i))
 	})
+	// 1c. Connect calls made from inside a running node's callbacks (the pair is looked up when the node has finished)
+	mcs := append(midConnectCases(), actionPayloadCases()...)
+	parallel(c, len(mcs), func(i int) {
+		judgeFor(c, "C03", "connect-while-running", mcs[i])
+		if len(mcs[i].MidConnect) > 0 {
+			r.Count("connect_while_running.cases", 1)
+		}
+		r.NontrivialH(uint64(10)<<40 | uint64(i))
+	})
 	// 2. random graphs: up to 12 nodes, 5 actions, nesting depth 3, cycles, re-connections, repeated runs
 	nr := c.Pick(30000, 2000000)
 	parallel(c, nr, func(i int) {
@@ -156,6 +165,12 @@ func runC03(c *Cfg) {
 		if sc.Runs > 1 && i%4 == 1 {
 			failSomewhere(rg.IntN(1<<30), sc) // a run that ends in an error, followed by further runs of the same flow object
 			r.Count("random.scenarios_with_failed_run_then_rerun", 1)
+		}
+		if i%5 == 3 {
+			addRandomMidConnects(rg, sc)
+			if len(sc.MidConnect) > 0 {
+				r.Count("random.scenarios_with_connect_while_running", 1)
+			}
 		}
 		outs, mrs := judgeFor(c, "C03", "random", sc)
 		if len(sc.Rewire) > 0 {
@@ -225,6 +240,22 @@ func runC04Batch(c *Cfg) {
 func runC04(c *Cfg) {
 	r := c.Rep
 	defer runC04Batch(c)
+	// flows with a retry budget of their own, nested: a failure that a later attempt of the flow recovers is not the
+	// run's outcome; one that no attempt recovers is, with the callback's own error
+	frc := flowRetryCases()
+	parallel(c, len(frc), func(i int) {
+		judgeFor(c, "C04", "flow-with-retries", frc[i])
+		r.Count("flow_with_retries.cases", 1)
+		r.Nontrivial("fr:" + scenSig(frc[i]))
+	})
+	// the context is cancelled inside the last permitted attempt, which fails: the run ends because of that failure
+	// (nothing was left to retry) and returns that error
+	clc := append(cancelInLastAttemptCases(false), cancelInLastAttemptCases(true)...)
+	parallel(c, len(clc), func(i int) {
+		judgeFor(c, "C04", "cancel-in-last-attempt", clc[i])
+		r.Count("cancel_in_last_attempt.cases", 1)
+		r.Nontrivial("cl:" + scenSig(clc[i]))
+	})
 	nb := c.Pick(3000, 200000)
 	parallel(c, nb, func(i int) {
 		rg := c.Rng("c04", i)
